@@ -620,7 +620,7 @@ func (p *Proxy) getNextReponseHop(msg *Message) (host string, port int, transpor
 
 func (p *Proxy) findClientTransport(host string, port int, transport string, transId string) (ClientTransport, error) {
 	trans, err := p.clientTransMgr.GetTransport(transport, host, port, p.localAddress, transId)
-	if err == nil && trans.primary == nil {
+	if err == nil && trans.primary == nil && strings.EqualFold(transport, "udp") {
 		serverTrans, ok := p.selfLearnRoute.GetRoute(host)
 		if ok {
 			udpServerTrans, ok := serverTrans.(*UDPServerTransport)
